@@ -76,6 +76,7 @@ shape!(QM { id: u32, name: String, flag: bool, ch: char });
 shape!(QI { a: u8, b: i8, c: u64, d: i64, e: u16, f: i32 });
 shape!(QO { a: Option<u32>, b: Option<String>, c: Option<bool>, d: u8 });
 shape!(QV { v: Vec<u32>, s: Vec<String>, #[serde(default)] d: Vec<i16> });
+shape!(QO0 { a: Option<u32> });
 shape!(QS<'a> { #[serde(borrow)] a: Cow<'a, str>, b: &'a str });
 
 /// Runs `$body` with `$T` bound to the struct named by `$name`.
